@@ -17,7 +17,8 @@ RULE = ("Seeded expression trees (depth<=4, leaves = specifier texts through par
         "from_specifierset, hostile shapes: equal bounds with different inclusivity, touching ranges, unions of up "
         "to 8 ranges, both spellings of the universal set; earlier trees reused as operands). Every call of an "
         "operator method (also the inner ones issued by the library itself) is one monitored event; a case is "
-        "non-trivial and distinct by (op, structure of a, structure of b) when neither operand is empty/universal.")
+        "non-trivial and distinct by (op, structure of a, structure of b) when neither operand is empty/universal."
+        " Large trees: unions of 20-120 ranges built by long/balanced folds, and big unions meeting small operands at their joints.")
 ASSUMPTIONS = [
     "specifier objects are read structurally (min/max/include_*/ranges); packaging.version.Version supplies the total order",
     "critical-point probes (bounds, public successors, +local neighbours, 0.dev0) are exact for the observed call",
